@@ -1,11 +1,20 @@
 package checks
 
 import (
+	"crypto/sha1"
+	"encoding/hex"
 	"fmt"
 	"regexp"
 	"sort"
 	"strings"
 	"time"
+
+	"context"
+
+	"github.com/sdcio/data-server/pkg/cache"
+	"github.com/sdcio/data-server/pkg/config"
+	"github.com/sdcio/data-server/pkg/tree"
+	"google.golang.org/protobuf/proto"
 
 	"verif/sim"
 	"verif/world"
@@ -27,6 +36,319 @@ func normMsgs(m map[string][]string) []string {
 // runC17: the same history is applied to two worlds that differ only in Validation.DisableConcurrency; every
 // transaction's verdict (error/warning sets) must be identical, and identical over repetitions of the dry run.
 func runC17(rc *sim.RunCtx) {
+	// two thirds of the runs are arm A (validation goroutines under the seeded scheduler), one third lets them run free
+	if rc.T.Choose(3) < 2 {
+		runC17Scheduled(rc)
+		return
+	}
+	rc.Probe("mode-free-running")
+	runC17Free(rc)
+}
+
+// scheduledDryRun executes one dry-run TransactionSet on w with every goroutine of RootEntry.Validate parked at the pkg/tree
+// yield points and released one at a time by the seeded scheduler. Returns the result and the hash of the schedule taken.
+func scheduledDryRun(rc *sim.RunCtx, w *world.World, tx *TxSpec) (*TxResult, string, bool) {
+	sched := sim.NewSched(rc, time.Millisecond)
+	sched.Fair = func() bool { return true } // time plays no role inside validation: never advance the clock while somebody can run
+	inValidate := false
+	loads, defaults, children := 0, 0, 0
+	tree.VerifYield = func(p string) {
+		switch p {
+		case "tree.validate.begin":
+			inValidate = true
+			sched.Enable()
+		case "tree.validate.end":
+			inValidate = false
+			sched.Drain()
+			return
+		}
+		if inValidate {
+			switch {
+			case strings.HasPrefix(p, "tree.tryload:"):
+				loads++
+			case strings.HasPrefix(p, "tree.trydefault:"):
+				defaults++
+			case strings.HasPrefix(p, "tree.validate:"):
+				children++
+			}
+		}
+		sched.Yield(p)
+	}
+	defer func() { tree.VerifYield = nil }()
+	var got *TxResult
+	done := make(chan struct{})
+	sched.Go("client", func() {
+		defer close(done)
+		got = ExecTx(rc, w, tx, 0)
+	})
+	ok := sched.Run(20000)
+	sched.Drain()
+	<-done
+	if loads > 0 {
+		rc.Probe("pipeline-lazy-load-during-validate")
+	}
+	if defaults > 0 {
+		rc.Probe("pipeline-default-load-during-validate")
+	}
+	if children > 1 {
+		rc.Probe("yield-tree.validate")
+	}
+	h := sha1.New()
+	for _, l := range sched.Trace {
+		h.Write([]byte(l))
+		h.Write([]byte{0})
+	}
+	rc.Count("scheduled-validations")
+	return got, hex.EncodeToString(h.Sum(nil))[:12], ok
+}
+
+// partialTreeValidate builds a tree the way lowlevelTransactionSet does - real tree context over the real cache and schema
+// client, the intents' updates inserted as new - but WITHOUT loading the running store into it, so that the validators have to
+// load running values and defaults on demand (the trees the property quantifies over). It validates once; with sched != nil the
+// validation goroutines run under the seeded scheduler.
+func partialTreeValidate(rc *sim.RunCtx, w *world.World, tx *TxSpec, sequential bool, scheduled bool) ([]string, string, bool, error) {
+	ctx := context.Background()
+	tscc := tree.NewTreeCacheClient(world.DSName, w.Cache)
+	tc := tree.NewTreeContext(tscc, w.DS.VerifSchemaClientBound(), world.DSName)
+	if err := tscc.RefreshCaches(ctx); err != nil {
+		return nil, "", true, err
+	}
+	root, err := tree.NewTreeRoot(ctx, tc)
+	if err != nil {
+		return nil, "", true, err
+	}
+	flagNew := tree.NewUpdateInsertFlags()
+	flagNew.SetNewFlag()
+	for _, is := range tx.Intents {
+		if is.Delete {
+			continue
+		}
+		tc.SetActualOwner(is.Name)
+		var upds tree.UpdateSlice
+		cl := Closure(w.SI, is.Leaves)
+		keys := make([]string, 0, len(cl))
+		for k := range cl {
+			keys = append(keys, k)
+		}
+		sort.Strings(keys)
+		for _, k := range keys {
+			l := cl[k]
+			b, err := proto.Marshal(MkTV(l.Node, l.Lex, "typed"))
+			if err != nil {
+				return nil, "", true, err
+			}
+			upds = append(upds, cache.NewUpdate(l.Path.CacheSlice(), b, is.Prio, is.Name, 0))
+		}
+		if err := root.AddCacheUpdatesRecursive(ctx, upds, flagNew); err != nil {
+			return nil, "", true, err
+		}
+	}
+	root.FinishInsertionPhase(ctx)
+	vcfg := &config.Validation{DisableConcurrency: sequential}
+	var res []string
+	collect := func() {
+		vr := root.Validate(ctx, vcfg)
+		for _, e := range vr.ErrorsStr() {
+			res = append(res, "E "+reHex.ReplaceAllString(e, "0x?"))
+		}
+		for _, e := range vr.WarningsStr() {
+			res = append(res, "W "+reHex.ReplaceAllString(e, "0x?"))
+		}
+		sort.Strings(res)
+	}
+	if !scheduled {
+		collect()
+		return res, "", true, nil
+	}
+	sched := sim.NewSched(rc, time.Millisecond)
+	sched.Fair = func() bool { return true }
+	inValidate := false
+	loads, defaults := 0, 0
+	tree.VerifYield = func(p string) {
+		switch p {
+		case "tree.validate.begin":
+			inValidate = true
+			sched.Enable()
+		case "tree.validate.end":
+			inValidate = false
+			sched.Drain()
+			return
+		}
+		if inValidate {
+			if strings.HasPrefix(p, "tree.tryload:") {
+				loads++
+			} else if strings.HasPrefix(p, "tree.trydefault:") {
+				defaults++
+			}
+		}
+		sched.Yield(p)
+	}
+	defer func() { tree.VerifYield = nil }()
+	done := make(chan struct{})
+	sched.Go("validator", func() {
+		defer close(done)
+		collect()
+	})
+	ok := sched.Run(20000)
+	sched.Drain()
+	<-done
+	if loads > 0 {
+		rc.Probe("lazy-load-during-validate")
+	}
+	if loads > 1 {
+		rc.Probe("several-lazy-loads-during-validate")
+	}
+	if defaults > 0 {
+		rc.Probe("default-load-during-validate")
+	}
+	h := sha1.New()
+	for _, l := range sched.Trace {
+		h.Write([]byte(l))
+		h.Write([]byte{0})
+	}
+	rc.Count("scheduled-partial-tree-validations")
+	return res, hex.EncodeToString(h.Sum(nil))[:12], ok, nil
+}
+
+// runC17Scheduled is arm A: a history over the lazy profile (validators of different branches read the same running values
+// and defaults, which have to be loaded into the tree on demand); every transaction is validated sequentially (reference) and
+// then several times concurrently under different seeded schedules of the validation goroutines.
+func runC17Scheduled(rc *sim.RunCtx) {
+	t := rc.T
+	rc.Probe("mode-scheduled")
+	si, err := world.LoadSchema()
+	if err != nil {
+		rc.HarnessErr("schema: %v", err)
+		return
+	}
+	wc, err := world.New(rc, world.Opts{DisableConcurrency: false})
+	if err != nil {
+		rc.HarnessErr("world: %v", err)
+		return
+	}
+	defer wc.Close()
+	ws, err := world.New(rc, world.Opts{DisableConcurrency: true})
+	if err != nil {
+		rc.HarnessErr("world: %v", err)
+		return
+	}
+	defer ws.Close()
+	profile := []string{"lazy", "lazy", "constraints"}[t.Choose(3)]
+	cfg := SwarmCfg(t, profile, map[string]bool{"create": true, "change": true, "grow": true, "shrink": true, "delete": true, "resubmit": true})
+	cfg.FormW = []int{4, 1, 0, 0}
+	cfg.InvalidPct = []int{0, 15}[t.Choose(2)]
+	g := NewGen(t, si, cfg)
+	m := NewModel(si)
+	// running values the validators need: each present with probability 3/4
+	E, P := world.E, world.P
+	cands := []*MLeaf{NewMLeaf(si, P(E("cc"), E("lim")), "50"), NewMLeaf(si, P(E("sys"), E("hostname")), "h9"),
+		NewMLeaf(si, P(E("k1", "name", "a"), E("val")), "v1"), NewMLeaf(si, P(E("k1", "name", "c"), E("val")), "v1"),
+		NewMLeaf(si, P(E("cc"), E("e", "name", "e1"), E("v")), "20"), NewMLeaf(si, P(E("cons"), E("lo")), "1"), NewMLeaf(si, P(E("cc"), E("kn")), "a")}
+	var seed []*MLeaf
+	for _, c := range cands {
+		if t.Bool(3, 4) {
+			seed = append(seed, c)
+		}
+	}
+	var ls []*world.Leaf
+	for _, l := range Closure(si, seed) {
+		ls = append(ls, &world.Leaf{Path: l.Path, Abs: l.Abs, TV: MkTV(l.Node, l.Lex, "typed")})
+	}
+	sort.Slice(ls, func(i, j int) bool { return ls[i].Path.String() < ls[j].Path.String() })
+	wc.SeedRunning(ls)
+	ws.SeedRunning(ls)
+	for _, l := range ls {
+		rc.Scenario("running %s = %s", l.Path, l.Abs)
+	}
+	rc.Probe("lazy-load-candidates")
+	n := 1 + t.Choose(4)
+	if rc.Tier == "thorough" {
+		n = 1 + t.Choose(8)
+	}
+	reps := 2
+	for step := 0; step < n; step++ {
+		time.Sleep(time.Second)
+		rc.AddSim(1)
+		tx := g.GenTx(m)
+		if tx == nil {
+			continue
+		}
+		rc.Step()
+		rc.Scenario("%d: %s", step, tx.Render())
+		// leg 1: partial tree (no running loaded): validators load running values and defaults on demand
+		pref, _, _, perr := partialTreeValidate(rc, wc, tx, true, false)
+		if perr != nil {
+			rc.HarnessErr("partial tree: %v", perr)
+			return
+		}
+		for r := 0; r < reps; r++ {
+			pgot, schedHash, ok, perr := partialTreeValidate(rc, wc, tx, false, true)
+			if perr != nil {
+				rc.HarnessErr("partial tree: %v", perr)
+				return
+			}
+			if !ok {
+				rc.Report(sim.Item{Prop: "C17", Clause: "C17.validation-does-not-finish", Step: step, Fields: map[string]string{"edits": renderEdits(tx), "mode": "partial-tree"}, Detail: "validation goroutines did not finish within 20000 scheduling decisions"})
+				return
+			}
+			rc.SigAdd(schedHash)
+			if strings.Join(pgot, "\n") != strings.Join(pref, "\n") {
+				a, b := diffSets(pref, pgot)
+				rc.Report(sim.Item{Prop: "C17", Clause: "C17.verdict-differs", Step: step, Fields: map[string]string{"repetition": fmt.Sprint(r), "edits": renderEdits(tx), "mode": "partial-tree"},
+					Detail: fmt.Sprintf("tree without running loaded: sequential validation %v; concurrent validation under the seeded schedule %s (repetition %d): only sequential: %v; only concurrent: %v", pref, schedHash, r, a, b)})
+				return
+			}
+		}
+		// leg 2: the transaction pipeline (running loaded up front) as dry runs
+		dry := *tx
+		dry.DryRun = true
+		dry.ID = tx.ID + "-seq"
+		ref := ExecTx(rc, ws, &dry, 5*time.Second)
+		refMsgs := normMsgs(ref.IntentErrors)
+		refErr := ref.Err != nil
+		for r := 0; r < reps; r++ {
+			d := *tx
+			d.DryRun = true
+			d.ID = fmt.Sprintf("%s-sch%d", tx.ID, r)
+			got, schedHash, ok := scheduledDryRun(rc, wc, &d)
+			if !ok {
+				rc.Report(sim.Item{Prop: "C17", Clause: "C17.validation-does-not-finish", Step: step, Fields: map[string]string{"edits": renderEdits(tx)}, Detail: "validation goroutines did not finish within 20000 scheduling decisions"})
+				return
+			}
+			rc.SigAdd(schedHash)
+			gm := normMsgs(got.IntentErrors)
+			if (got.Err != nil) != refErr || strings.Join(gm, "\n") != strings.Join(refMsgs, "\n") {
+				a, b := diffSets(refMsgs, gm)
+				rc.Report(sim.Item{Prop: "C17", Clause: "C17.verdict-differs", Step: step, Fields: map[string]string{"repetition": fmt.Sprint(r), "edits": renderEdits(tx), "mode": "scheduled"},
+					Detail: fmt.Sprintf("sequential validation: err=%t %v; concurrent validation under the seeded schedule %s (repetition %d): err=%t; only sequential: %v; only concurrent: %v", refErr, refMsgs, schedHash, r, got.Err != nil, a, b)})
+				return
+			}
+		}
+		if len(refMsgs) > 0 {
+			rc.Probe("invalid-step")
+		}
+		rc.NonTrivial()
+		rc.SigAdd(fmt.Sprintf("%s|%d", renderEdits(tx), len(refMsgs)))
+		if !refErr && len(refMsgs) == 0 {
+			r1 := ExecTx(rc, ws, tx, 5*time.Second)
+			t2 := *tx
+			r2 := ExecTx(rc, wc, &t2, 5*time.Second)
+			ws.NoteTimer(30 * time.Second)
+			wc.NoteTimer(30 * time.Second)
+			if r1.Accepted() != r2.Accepted() {
+				rc.Report(sim.Item{Prop: "C17", Clause: "C17.verdict-differs", Step: step, Fields: map[string]string{"repetition": "apply", "edits": renderEdits(tx), "mode": "free"}, Detail: fmt.Sprintf("sequential accepted=%t, concurrent accepted=%t", r1.Accepted(), r2.Accepted())})
+				return
+			}
+			if r1.Accepted() {
+				Confirm(rc, ws, tx.ID)
+				Confirm(rc, wc, tx.ID)
+				m.Accept(tx)
+			}
+		}
+	}
+}
+
+func runC17Free(rc *sim.RunCtx) {
 	t := rc.T
 	si, err := world.LoadSchema()
 	if err != nil {
@@ -127,8 +449,8 @@ func init() {
 		Rule: "the same generated history over the constraints profile (leafrefs into sibling lists, must across siblings and branches, defaults, running values seeded so that validators load them lazily) is applied to two worlds that differ only in Validation.DisableConcurrency; every transaction is first validated as a dry run once sequentially and three times concurrently: the normalised error/warning sets must be identical. The quick tier runs this on the normal build (verdict determinism); the thorough tier rebuilds the simulator with the Go race detector (-race) and reports any DATA RACE printed by a worker whose stack touches pkg/tree or the schema client (arm B: runtime monitoring of uncontrolled schedules, inputs replay exactly, interleavings do not). Non-trivial = a step with validation messages; distinct = signature.",
 		Real: realCore, Stub: stubCore,
 		Assume:           []string{"goroutine interleavings inside RootEntry.Validate are those the Go scheduler produces (GOMAXPROCS of the host); they are not seeded - the deterministic yield-point arm of DESIGN was not built (see DESIGN §4 C17)"},
-		NonDeterministic: true,
-		RequiredProbes:   []string{"invalid-step", "lazy-load-candidates"},
-		QuickSeconds:     30, ThoroughSeconds: 420,
+		NonDeterministic: true, CrashIsViolation: true, HangIsViolation: true,
+		RequiredProbes: []string{"invalid-step", "lazy-load-candidates", "mode-scheduled", "mode-free-running", "yield-tree.validate", "lazy-load-during-validate"},
+		QuickSeconds:   30, ThoroughSeconds: 420,
 	})
 }
